@@ -34,6 +34,9 @@
    msg   = 0 npeers p* | 1 | 2 haskey recflag recid npeers p* | 3 valid
          | 4 haskey nprov (peer naddr addr* )* npeers p* | 5
    trace = 1 group*     one group per event of `select!` (the event, then the drain that follows)
+           (2 ... on a bounded event channel, 3 ... in composed mode: the group is followed by the
+            non-empty k-buckets, the stored record keys, the provided keys, the number of armed refresh
+            timers and the replies written to inbound substreams, see dump_w / flush_c)
    group = ok nouts out* dump
    out   = 0 q n p* | 1 q | 2 q | 3 q | 4 q n (peer naddr addr* )* | 5 q | 6 q p r | 7 n p* | 8 | 9 | 10 q n p*
    dump  = ndials (p nacts (kind q)* )*  npeers (p nacts (sid kind q)* )*  nsubs (sid p)*  nfuts
